@@ -23,6 +23,10 @@ type DepositCase struct {
 	Steps  []DepStep  `json:"steps"`
 	// app level only
 	Batches []DepBatch `json:"batches,omitempty"`
+	// Phantom > 0 (app level): the history ends with a rolled-back vote: one transaction carries a quorum vote for hash X
+	// at tip+1 and a deposit batch against X whose last item fails, so the whole transaction fails; then hash Y is
+	// voted for tip+1. A deposit proven against X must be refused, one proven against Y credited.
+	Phantom int `json:"phantom,omitempty"`
 }
 
 // DepBatch is one MsgNewDeposits transaction at app level.
@@ -285,6 +289,9 @@ func genDepositHistory(t *rapid.T) DepositCase {
 	for i := range c.Batches {
 		c.Batches[i].Reimport = rapid.IntRange(0, 7).Draw(t, "reimport") == 0
 	}
+	if rapid.IntRange(0, 2).Draw(t, "phantomRoll") == 0 {
+		c.Phantom = rapid.IntRange(1, 12).Draw(t, "phantom")
+	}
 	return c
 }
 
@@ -472,6 +479,92 @@ func runDepositHistory(c DepositCase) Outcome {
 			return o
 		}
 	}
+	if c.Phantom > 0 {
+		value := uint64(50_000)
+		if c.Params.MinDep > value {
+			value = c.Params.MinDep
+		}
+		mk := func(seed int) *builtDepBlock {
+			return buildDepBlock(DepBlock{Depth: -1, NTx: 2 + c.Phantom%3, Pos: 1, Version: 0, Key: 0, EvmSeed: seed, Value: value, OutIdx: c.Phantom % 2}, c.Keys, c.Params.Magic)
+		}
+		sBlk, rBlk := mk(9000+c.Phantom), mk(9500+c.Phantom)
+		okS, _ := sBlk.validity(f.keys, f.params)
+		okR, _ := rBlk.validity(f.keys, f.params)
+		if okS && okR && value < 1<<40 {
+			vf := &voteFixture{sim: f.sim, n: 2, btcKey: c.Keys[len(c.Keys)-1].key()}
+			vote := func(b *builtDepBlock) (sdk.Msg, *Failure) {
+				rv, err := f.sim.Node.RelayerView()
+				if err != nil {
+					return nil, failf("query", "query-failed", "%v", err)
+				}
+				m, err := vf.honestMsg(voteBody{kind: kindHashes, start: depTip + 1, hashes: [][]byte{b.blk.Hash}}, rv)
+				if err != nil {
+					return nil, failf("fixture", "vote-build-failed", "%v", err)
+				}
+				return m, nil
+			}
+			deps := func(b *builtDepBlock, n int) *bitcointypes.MsgNewDeposits {
+				m := &bitcointypes.MsgNewDeposits{Proposer: propAddr, BlockHeaders: []*bitcointypes.BlockHeader{b.header()}}
+				for i := 0; i < n; i++ {
+					m.Deposits = append(m.Deposits, b.deposit())
+				}
+				return m
+			}
+			oneTx := func(what string, want bool, sig string, msgs ...sdk.Msg) *Failure {
+				raw, err := f.sim.Node.Tx(prop, 0, world.TxOpts{}, msgs...)
+				if err != nil {
+					return failf("fixture", "tx-build-failed", "%v", err)
+				}
+				pendingTxs, pendingExpect = [][]byte{raw}, []bool{want}
+				blk, txs, err := f.sim.Begin(world.StepOpts{DT: 5 * time.Second, Proposer: -1, Txs: pendingTxs})
+				if err != nil {
+					return failf("block-processing", "begin-failed", "%v", err)
+				}
+				r, err := f.sim.Exec(blk, txs, false)
+				if err != nil {
+					return failf("block-processing", "block-failed", "%v", err)
+				}
+				if _, m, _ := decodeEthBlockTx(f.sim.Node, txs[0]); m != nil {
+					if fl := observe(m.Payload.Transactions[:int(m.Payload.ExtraData[0])]); fl != nil {
+						return fl
+					}
+				}
+				pendingTxs, pendingExpect = nil, nil
+				if res := r.Resp.TxResults[1]; (res.Code == 0) != want {
+					return failf("deposit-acceptance", sig, "rolled-back vote episode, %s: code=%d log=%q, expected success=%v", what, res.Code, res.Log, want)
+				}
+				return nil
+			}
+			vS, fl := vote(sBlk)
+			if fl == nil {
+				// the same deposit twice: the second item fails after the first was verified against X
+				fl = oneTx("vote for X + deposits against X with a failing item in one transaction", false, "accepted/invalid-batch", vS, deps(sBlk, 2))
+			}
+			var vR sdk.Msg
+			if fl == nil {
+				vR, fl = vote(rBlk)
+			}
+			if fl == nil {
+				fl = oneTx("vote for Y at the same height", true, "vote-after-rolled-back-vote-refused", vR)
+			}
+			if fl == nil {
+				fl = oneTx("deposit proven against X, a hash that was never voted", false, "accepted/header-of-a-hash-never-voted", deps(sBlk, 1))
+			}
+			if fl == nil {
+				fl = oneTx("deposit proven against the voted hash Y", true, "valid-batch-rejected", deps(rBlk, 1))
+				if fl == nil {
+					k := fmt.Sprintf("%x:%d", world.DSha(rBlk.blk.Raw[rBlk.pos]), rBlk.outIdx)
+					credited[k] = rBlk
+					creditOrder = append(creditOrder, k)
+				}
+			}
+			if fl != nil {
+				o.Fail = fl
+				return o
+			}
+			o.Classes = append(o.Classes, "rolled-back-vote-episode")
+		}
+	}
 	// drain: empty blocks until everything owed has been handed over
 	for i := 0; i < 8 && len(deliveredOrder) < len(creditOrder); i++ {
 		if fl := flush(); fl != nil {
@@ -510,6 +603,6 @@ func TestC03_History(t *testing.T) {
 	RunProp(t, Prop[DepositCase]{
 		ID: "C03", Name: "history", Quick: 640, Thor: 10_000,
 		Gen: genDepositHistory, Run: runDepositHistory,
-		Rule: "histories of 2-8 MsgNewDeposits transactions (1-16 items each, repeated items, mutated items, several batches per consensus block, process restarts and restarts from an exported state between blocks) through FinalizeBlock; model: a batch succeeds iff every item is acceptable and no (txid, output) was credited before or repeats inside it; every deposit system transaction found in later execution payloads must have been credited by the model exactly once, in order, with amount+tax=value and the tax formula; HasDeposited equals the model set; non-trivial = history contains an acceptable item",
+		Rule: "histories of 2-8 MsgNewDeposits transactions (1-16 items each, repeated items, mutated items, several batches per consensus block, process restarts and restarts from an exported state between blocks) through FinalizeBlock; model: a batch succeeds iff every item is acceptable and no (txid, output) was credited before or repeats inside it; every deposit system transaction found in later execution payloads must have been credited by the model exactly once, in order, with amount+tax=value and the tax formula; HasDeposited equals the model set; a third of the histories end with a rolled-back vote (one transaction votes hash X for tip+1 and carries deposits against X of which the last fails; then Y is voted: a deposit proven against X must be refused, one against Y credited); non-trivial = history contains an acceptable item",
 	})
 }
